@@ -168,7 +168,7 @@ def gen_points(rng, fam, L):
     return p1[:60], p2[:60]
 
 
-FAMILIES = ['pairs', 'seam', 'pole', 'dups', 'allsky', 'smallchunk', 'polebound', 'highdec', 'threshold', 'edges', 'convex']
+FAMILIES = ['pairs', 'seam', 'pole', 'dups', 'allsky', 'smallchunk', 'polebound', 'highdec', 'dtype', 'threshold', 'edges', 'convex']
 
 
 def polebound_case(rng):
@@ -294,7 +294,32 @@ def ring_case(rng):
                        'maxmatch': rng.choice([0, 0, 1, 2])})
 
 
+C04_DTYPES = ['int64', 'int32', 'float32', 'float64', 'int16']
+
+
+def dtype_case(rng):
+    """whole-degree coordinates passed as integer / float32 / mixed arrays"""
+    L = rng.choice([1.5, 2.5, 1.2, 3.5])
+    ra0, dec0 = rng.randint(0, 300), rng.randint(-70, 50)
+    p1 = [(ra0 + rng.randint(0, 20), dec0 + rng.randint(0, 15)) for _ in range(rng.randint(2, 12))]
+    p2 = []
+    for a in p1:
+        for _ in range(rng.choice([0, 1, 1, 2])):
+            p2.append((a[0] + rng.randint(-3, 3), max(-89, min(89, a[1] + rng.randint(-3, 3)))))
+    for _ in range(rng.randint(0, 3)):
+        p2.append((rng.randint(0, 359), rng.randint(-89, 89)))
+    if not p2:
+        p2.append((ra0, dec0))
+    p2 = [(x % 360, y) for x, y in p2]
+    dt = {k: rng.choice(C04_DTYPES) for k in ('ra1', 'dec1', 'ra2', 'dec2')}
+    return limit_cost({'fam': 'dtype', 'ra1': [p[0] for p in p1], 'dec1': [p[1] for p in p1], 'ra2': [p[0] for p in p2],
+                       'dec2': [p[1] for p in p2], 'L': L, 'chunksize': rng.choice([None, 4 * L, 10.0]),
+                       'maxmatch': rng.choice([0, 0, 1, 2]), 'dtype': dt})
+
+
 def gen_case(rng, fam):
+    if fam == 'dtype':
+        return dtype_case(rng)
     if fam == 'smallchunk' and rng.random() < 0.3:
         return ring_case(rng)
     if fam == 'polebound':
@@ -550,7 +575,7 @@ def near_threshold(case, res):
     L = case['L']
     for row in res['sep']:
         for s in row:
-            if s != L and abs(s - L) <= 1e-9 * L:
+            if s != L and abs(s - L) <= (1e-4 if case.get('dtype') else 1e-9) * L:
                 return True
     return False
 
@@ -583,7 +608,7 @@ def correspond(ctx, proof_ok=True):
     for fam in FAMILIES:
         if fam in ('edges', 'threshold', 'convex'):
             continue
-        for _ in range({'smallchunk': ctx.n(60, 1200), 'polebound': ctx.n(8, 100)}.get(fam, n_per)):
+        for _ in range({'smallchunk': ctx.n(60, 1200), 'polebound': ctx.n(8, 100), 'dtype': ctx.n(16, 300)}.get(fam, n_per)):
             c = gen_case(rng, fam)
             if admissible(c):
                 cases.append(c)
